@@ -12,6 +12,7 @@ CONSTANTS
   RecvApis = {"startread", "typed"}
   WriteSizes = {1, 2, 3, 4, 5, 6}
   StrSizes = {}
+  StrBytesSizes = {}
   ReadSizes = {1, 2, 3, 4, 5, 6}
   MaxMsgs = 1
   MaxWrites = 2
